@@ -10,6 +10,8 @@ package hx
 
 import (
 	"bytes"
+	"context"
+	"crypto/tls"
 	"crypto/sha256"
 	"encoding/base64"
 	"encoding/binary"
@@ -27,6 +29,7 @@ import (
 	"time"
 
 	"github.com/IrineSistiana/mosproxy/app/router"
+	"github.com/quic-go/quic-go"
 )
 
 // Behaviour of a fake upstream for one question key.
@@ -287,6 +290,9 @@ func ReadableName(raw []byte) string {
 
 var ListenerKinds = []string{"udp", "tcp", "gnet", "http", "fasthttp"}
 
+// TLS-based listeners (temporary self-signed certificate), started only when the cfgspec has T=1
+var TlsListenerKinds = []string{"tls", "https", "quic"}
+
 // NewRouterEnv builds everything for a cfgspec. extra listeners (tls/https/quic) are not started here.
 func NewRouterEnv(spec string) (*RouterEnv, error) {
 	env := &RouterEnv{Spec: spec, Ports: map[string]int{}, behaviour: map[string]Behaviour{}, queries: map[string][]UpQuery{}}
@@ -365,13 +371,20 @@ func NewRouterEnv(spec string) (*RouterEnv, error) {
 	if m := parts["M"]; m != "" {
 		maxc, _ = strconv.Atoi(m)
 	}
-	for _, k := range ListenerKinds {
+	kinds := append([]string(nil), ListenerKinds...)
+	if parts["T"] == "1" {
+		kinds = append(kinds, TlsListenerKinds...)
+	}
+	for _, k := range kinds {
 		p := FreePort()
 		env.Ports[k] = p
 		sc := router.ServerConfig{Tag: k, Protocol: k, Listen: fmt.Sprintf("127.0.0.1:%d", p)}
 		sc.Tcp.MaxConcurrentQueries = int32(maxc)
-		if k == "http" || k == "fasthttp" {
+		if k == "http" || k == "fasthttp" || k == "https" {
 			sc.Http.ClientAddrHeader = "X-Verif-Client"
+		}
+		if k == "tls" || k == "https" || k == "quic" {
+			sc.Tls.DebugUseTempCert = true
 		}
 		cfg.Servers = append(cfg.Servers, sc)
 	}
@@ -381,7 +394,11 @@ func NewRouterEnv(spec string) (*RouterEnv, error) {
 	}
 	env.R = r
 	// wait until the stream listeners accept
-	for _, k := range []string{"tcp", "gnet", "http", "fasthttp"} {
+	waitFor := []string{"tcp", "gnet", "http", "fasthttp"}
+	if parts["T"] == "1" {
+		waitFor = append(waitFor, "tls", "https")
+	}
+	for _, k := range waitFor {
 		ok := false
 		for i := 0; i < 200; i++ {
 			c, err := net.DialTimeout("tcp", fmt.Sprintf("127.0.0.1:%d", env.Ports[k]), 200*time.Millisecond)
@@ -437,8 +454,17 @@ func (e *RouterEnv) Query(l string, wire []byte, client string, timeout, grace t
 			return nil, "no-response"
 		}
 		return resps, "ok"
-	case l == "tcp" || l == "gnet":
-		c, err := net.DialTimeout("tcp", fmt.Sprintf("127.0.0.1:%d", port), time.Second)
+	case l == "quic":
+		return e.queryQuic(port, wire, timeout, grace)
+	case l == "tcp" || l == "gnet" || l == "tls":
+		var c net.Conn
+		var err error
+		if l == "tls" {
+			d := &net.Dialer{Timeout: time.Second}
+			c, err = tls.DialWithDialer(d, "tcp", fmt.Sprintf("127.0.0.1:%d", port), &tls.Config{InsecureSkipVerify: true})
+		} else {
+			c, err = net.DialTimeout("tcp", fmt.Sprintf("127.0.0.1:%d", port), time.Second)
+		}
 		if err != nil {
 			return nil, "dial-error"
 		}
@@ -464,6 +490,11 @@ func (e *RouterEnv) Query(l string, wire []byte, client string, timeout, grace t
 		return resps, "ok"
 	default: // http-get http-post fasthttp-get fasthttp-post
 		base := fmt.Sprintf("http://127.0.0.1:%d/dns-query", port)
+		tr := &http.Transport{DisableKeepAlives: true}
+		if strings.HasPrefix(l, "https") {
+			base = fmt.Sprintf("https://127.0.0.1:%d/dns-query", port)
+			tr = &http.Transport{DisableKeepAlives: true, ForceAttemptHTTP2: true, TLSClientConfig: &tls.Config{InsecureSkipVerify: true}}
+		}
 		var req *http.Request
 		if strings.HasSuffix(l, "-get") {
 			req, _ = http.NewRequest("GET", base+"?dns="+B64(wire), nil)
@@ -475,7 +506,8 @@ func (e *RouterEnv) Query(l string, wire []byte, client string, timeout, grace t
 		if client != "" && client != "-" {
 			req.Header.Set("X-Verif-Client", client)
 		}
-		cl := &http.Client{Timeout: timeout, Transport: &http.Transport{DisableKeepAlives: true}}
+		cl := &http.Client{Timeout: timeout, Transport: tr}
+		defer tr.CloseIdleConnections()
 		resp, err := cl.Do(req)
 		if err != nil {
 			return nil, "no-response"
@@ -574,4 +606,40 @@ func (e *RouterEnv) EnableKeyed(ttl uint32, maxDelay time.Duration) {
 	e.keyedDelay = maxDelay
 	e.keyed = true
 	e.mu.Unlock()
+}
+
+// queryQuic sends one DoQ query (one stream, 2-octet length prefix) and reads the response frames on that stream.
+func (e *RouterEnv) queryQuic(port int, wire []byte, timeout, grace time.Duration) ([][]byte, string) {
+	ctx, cancel := context.WithTimeout(context.Background(), timeout)
+	defer cancel()
+	c, err := quic.DialAddr(ctx, fmt.Sprintf("127.0.0.1:%d", port), &tls.Config{InsecureSkipVerify: true, NextProtos: []string{"doq"}}, nil)
+	if err != nil {
+		return nil, "dial-error"
+	}
+	defer c.CloseWithError(0, "")
+	st, err := c.OpenStreamSync(ctx)
+	if err != nil {
+		return nil, "dial-error"
+	}
+	f := binary.BigEndian.AppendUint16(nil, uint16(len(wire)))
+	st.Write(append(f, wire...))
+	st.Close() // DoQ: the client closes its side after the query
+	st.SetReadDeadline(time.Now().Add(timeout))
+	var resps [][]byte
+	for {
+		hdr := make([]byte, 2)
+		if _, err := io.ReadFull(st, hdr); err != nil {
+			break
+		}
+		body := make([]byte, binary.BigEndian.Uint16(hdr))
+		if _, err := io.ReadFull(st, body); err != nil {
+			return resps, "short-frame"
+		}
+		resps = append(resps, body)
+		st.SetReadDeadline(time.Now().Add(grace + 20*time.Millisecond))
+	}
+	if len(resps) == 0 {
+		return nil, "no-response"
+	}
+	return resps, "ok"
 }
